@@ -269,6 +269,58 @@ def check(rep: Report, ctx: Ctx) -> None:
            fi=raw, node=resets[0] if resets else raw.node,
            detail=f"{len(resets)} reset(s), {len(inserts)} insert call(s)")
 
+    # the pending list keeps every span, in arrival order, until it is filtered
+    # or committed ("the first occurrence seen" is the first in this list)
+    holder = ctx.index.cls("SQLDataHolder")
+    pend = "node_models_to_save"
+    offenders: list[tuple[FuncInfo, ast.AST, str]] = []
+    for ms in holder.methods.values():
+        for m in ms:
+            for n in ast.walk(m.node):
+                if isinstance(n, ast.Call) and isinstance(
+                        n.func, ast.Attribute) and isinstance(
+                        n.func.value, ast.Attribute) \
+                        and n.func.value.attr == pend:
+                    meth = n.func.attr
+                    if meth == "append" and m.name == save.name:
+                        continue
+                    if meth in ("sort", "reverse", "insert", "pop", "remove",
+                                "extend", "clear", "append"):
+                        offenders.append((m, n, f".{meth}() in {m.name}"))
+                if isinstance(n, (ast.Assign, ast.AugAssign, ast.Delete)):
+                    tg = n.targets if not isinstance(n, ast.AugAssign) \
+                        else [n.target]
+                    for t in tg:
+                        if isinstance(t, ast.Subscript) and isinstance(
+                                t.value, ast.Attribute) \
+                                and t.value.attr == pend:
+                            offenders.append((m, n, f"item store in "
+                                                    f"{m.name}"))
+                        if isinstance(t, ast.Attribute) and t.attr == pend \
+                                and isinstance(n, ast.Assign):
+                            v = n.value
+                            if isinstance(v, ast.List) and not v.elts:
+                                continue           # reset
+                            if m.name in (filt.name, "__init__"):
+                                continue           # the filter's own result
+                            offenders.append((m, n, f"rebinding in "
+                                                    f"{m.name}"))
+                        if isinstance(t, ast.Attribute) and t.attr == pend \
+                                and isinstance(n, ast.AugAssign):
+                            offenders.append((m, n, f"augmented assignment "
+                                                    f"in {m.name}"))
+    rep.ob("R10.5", "the pending list keeps arrival order until it is "
+           "filtered or committed", not offenders,
+           fi=offenders[0][0] if offenders else save,
+           node=offenders[0][1] if offenders else save.node,
+           detail=("; ".join(o[2] for o in offenders) + " -- the duplicate "
+                   "filter keeps the first occurrence *in list order*; "
+                   "re-ordering or editing the pending list makes a later "
+                   "occurrence (and its parent link) win")
+           if offenders else
+           "only _save_data appends; resets and the filter's result are the "
+           "only rebindings")
+
     # ---- R10.6 ---------------------------------------------------------------
     rep.rule("R10.6", "filter skeleton", 7)
     _filter(rep, ctx, filt, raw)
